@@ -132,3 +132,17 @@ Proof.
   destruct (hds_read_correct h Hcs off len Hwf Hoff Hlen) as (p & T & Hp & HT & Hs).
   exists p, T. repeat split; try assumption; lia.
 Qed.
+
+(* ---- QCOW2 ---- *)
+From DH Require Model.Qcow2 Proofs.Qcow2 Proofs.Qcow2Total Spec.Qcow2.
+
+Theorem qcow2_contract (im : Model.Qcow2.image) align :
+  Proofs.Qcow2.wf_image im -> Spec.Qcow2.conformant (Model.Qcow2.spec_of im) (Model.Qcow2.size_of im) -> 0 < align ->
+  reader_contract (Model.Qcow2.size_of im) align
+    (fun off len => Model.Qcow2.qcow2_read im (S (Z.to_nat (Z.min len (Model.Qcow2.size_of im - off)))) off len)
+    (Model.Qcow2.guest_src im).
+Proof.
+  intros Hwf Hc Hal off len Hoff Hoa Hlen Hla.
+  destruct (Proofs.Qcow2Total.qcow2_read_total im off len Hwf Hc Hoff Hlen) as (p & Hp & Hs).
+  exists p, (Z.min len (Model.Qcow2.size_of im - off)). repeat split; try assumption; lia.
+Qed.
